@@ -20,7 +20,7 @@ def _take_list(t, p):
 
 def _args(api, line, tools, d):
     t = line.split()
-    if api == "climat":
+    if api in ("climat", "climatd"):
         infmt, outfmt, tr, task, hasS = (int(x) for x in t[:5])
         rs, p = _take_list(t, 5)
         cs, p = _take_list(t, p)
@@ -43,6 +43,8 @@ def _args(api, line, tools, d):
             a.append("-c")
         elif task == 2:
             a.append("-C")
+        if api == "climatd":
+            a.append("-d")
         return a
     if api == "cligraph":
         signed, tr, outfmt = (int(x) for x in t[:3])
